@@ -272,6 +272,22 @@ func (probeFamily) Exec(c *hc.Case) {
 			break
 		}
 	}
+	// what survives a stalled caller (c03_budget_bounded_stall): with delta the longest stall in this history, any
+	// max(1,k)+1 consecutive admissions lie at least SleepWindow - delta apart.  A violation of THIS is not the known
+	// finding D3 (which it bounds) and is reported.
+	delta := int64(0)
+	for _, ev := range gate {
+		if ev.at-ev.stamp > delta {
+			delta = ev.at - ev.stamp
+		}
+	}
+	for i := int(k); i < len(adm); i++ {
+		if adm[i]-adm[i-int(k)] < p.Sleep-delta {
+			c.Viol = append(c.Viol, hc.Violation{Clause: "C03: the calls admitted in any time span shorter than SleepWindow (less the longest stall of a caller between its clock reading and the gate) number at most max(1, HalfOpenAttempts)",
+				Detail: fmt.Sprintf("%d calls admitted within %v although SleepWindow is %v and no caller was stalled for more than %v; admissions at %v", k+1, time.Duration(adm[i]-adm[i-int(k)]), time.Duration(p.Sleep), time.Duration(delta), adm), AtOp: i})
+			break
+		}
+	}
 	for _, ev := range gate {
 		if ev.admitted && ev.stamp < ev.at {
 			tags["known:D3"] = true // a call was admitted on a clock reading older than the moment it reached the gate
